@@ -494,3 +494,64 @@ func zzC07cDownstreamLifecycle() {
 	vf.Assert("lock-free", vf.RUnlocked(c.downstreams.mu))
 	vf.Reach("end")
 }
+
+
+// C06.d: a caller that gives up does not poison later callers: a late response for an abandoned
+// request id is ignored, and the next caller gets exactly the response bearing its own id.
+func zzC06dAbandoned() {
+	tr := ZZNewFakeTransport()
+	c := ZZNewClientConn(tr, nil)
+	go c.readRequestLoop()
+	idA, idB := vf.U32("idA"), vf.U32("idB")
+	vf.Assume(idA != idB)
+	how := vf.Choose("a.ends.by", 3) // 0: context cancelled, 1: write error, 2: answered normally
+	ctxA, cancelA := context.WithCancel(context.Background())
+	defer cancelA()
+	var gotA message.Request
+	var errA error
+	doneA := false
+	if how == 1 {
+		tr.WriteErr = errors.New("write failed")
+	}
+	go func() {
+		gotA, errA = c.sendRequest(ctxA, &message.UpstreamMetadata{RequestID: message.RequestID(idA)})
+		doneA = true
+	}()
+	vf.Settle()
+	tr.WriteErr = nil
+	ackA := &message.UpstreamMetadataAck{RequestID: message.RequestID(idA), ResultString: "for-A"}
+	switch how {
+	case 0:
+		cancelA()
+		vf.Settle()
+		vf.Assert("cancelled-caller-returns", doneA && gotA == nil && errA != nil)
+		c.msgRequestCh <- ackA // the broker answers late
+		vf.Settle()
+	case 1:
+		vf.Assert("failed-write-returns", doneA && gotA == nil && errA != nil)
+		c.msgRequestCh <- ackA
+		vf.Settle()
+	case 2:
+		c.msgRequestCh <- ackA
+		vf.Settle()
+		vf.Assert("answered-caller-returns-its-reply", doneA && errA == nil && gotA == message.Request(ackA))
+		c.msgRequestCh <- ackA // duplicate of an already answered id
+		vf.Settle()
+	}
+	// next caller, any kind of request
+	var gotB message.Request
+	var errB error
+	doneB := false
+	go func() {
+		gotB, errB = c.sendRequest(context.Background(), &message.Ping{RequestID: message.RequestID(idB)})
+		doneB = true
+	}()
+	vf.Settle()
+	vf.Assert("next-caller-waits-for-its-own-reply", !doneB)
+	pong := &message.Pong{RequestID: message.RequestID(idB)}
+	c.msgRequestCh <- pong
+	vf.Settle()
+	vf.Assert("next-caller-gets-exactly-its-reply", doneB && errB == nil && gotB == message.Request(pong))
+	vf.Assert("lock-free", vf.Unlocked(&c.mu))
+	vf.Reach("end")
+}
